@@ -1,11 +1,11 @@
 package engine
 
 import (
+	"github.com/nyaruka/goflow/assets"
+	"github.com/nyaruka/goflow/envs"
 	"github.com/nyaruka/goflow/flows"
 	"github.com/nyaruka/goflow/flows/triggers"
 	"github.com/nyaruka/goflow/zzverif"
-	"github.com/nyaruka/goflow/assets"
-	"github.com/nyaruka/goflow/envs"
 )
 
 // VerifC01_Smoke: a fixed two-node flow (wait, then terminal enter of a
